@@ -2,10 +2,12 @@
 import collections
 from core import Case
 import c10_common as C
+import c10_dev
 
 PROP = 'C10'
-COQ_TARGETS = ['theories/AsapFacts.vo', 'theories/AsapCodecFacts.vo']
-COQ_IMPORTS = 'From Bac Require Import Base.\nFrom Bac Require Import Tag.\nFrom Bac Require Import Asap.\nFrom Bac Require Import AsapCodec.'
+COQ_TARGETS = ['theories/AsapFacts.vo', 'theories/AsapCodecFacts.vo', 'theories/DeviceRxFacts.vo', 'theories/DeviceRxReply.vo']
+COQ_IMPORTS = ('From Bac Require Import Base.\nFrom Bac Require Import Tag.\nFrom Bac Require Import Asap.\nFrom Bac Require Import AsapCodec.\n'
+               'From Bac Require SsmWorld.\nFrom Bac Require Import Ssm DeviceRx.')
 RULE = ('valid confirmed requests of every supported service (ReadProperty, WriteProperty, ReadPropertyMultiple, SubscribeCOV, '
         'DeviceCommunicationControl, AtomicReadFile/WriteFile, one unsupported and one unknown service) x every truncation, '
         '6 substitutions per parameter octet and 7 insertions per position with the fixed header intact, sent as raw frames to a full '
@@ -157,11 +159,22 @@ def request_pool(rng):
     return out
 
 
+DEV_STATS = {}
+_POOL = []
+
+
+def request_pool_static():
+    return _POOL[0]
+
+
 def cases(rng, tier):
     _quiet()
-    out = []
+    out, dev = [], []
+    DEV_STATS.clear()
     per = 10 ** 9 if tier == 'thorough' else 170
-    for name, apdu in request_pool(rng):
+    pool = request_pool(rng)
+    _POOL[:] = [pool]
+    for name, apdu in pool:
         muts = [('valid', apdu)] + C.mutations(rng, apdu)
         if len(muts) > per:
             head = muts[:1]
@@ -176,7 +189,21 @@ def cases(rng, tier):
             out.append(Case(name, coq_octets(m, helper, x), canon_dec_out(known, d) + flat, key=bytes(m), nontrivial=(how != 'valid'),
                             desc={'request': name, 'mutation': how, 'apdu': bytes(m).hex(),
                                   'decode_outcome': list(d), 'service_outcome': list(x)}))
-    return out
+            # device level: the same frame predicted from its raw octets through every layer (DeviceRx.v)
+            if tier == 'thorough' or how == 'valid' or len(out) % 3 == 0:
+                c = c10_dev.single_case(name, how, m)
+                if c is not None:
+                    dev.append(c)
+    dev += c10_dev.scenario_cases(rng, tier, request_pool_static(), C.other_confirmed(INVOKE), C.unconfirmed_requests(), DEV_STATS)
+    # interleave so that the in-kernel shards are balanced
+    merged, k = [], max(1, len(out) // max(1, len(dev)))
+    it = iter(dev)
+    for i, c in enumerate(out):
+        merged.append(c)
+        if i % k == k - 1:
+            merged.extend([d for d in [next(it, None)] if d is not None])
+    merged.extend(it)
+    return merged
 
 
 def direct(rng, tier, focus=()):
